@@ -47,6 +47,7 @@ func storeRun(args []string) error {
 	n := fs.Int("n", 20, "scripts")
 	length := fs.Int("len", 14, "steps per script")
 	replay := fs.String("replay", "", "replay file")
+	scripts := fs.String("scripts", "", "behaviours exported by TLC from Store.tla (ndjson, calls only)")
 	fs.Parse(args)
 	w, err := newNDWriter(*out)
 	if err != nil {
@@ -160,6 +161,48 @@ func storeRun(args []string) error {
 	}
 
 	r := rand.New(rand.NewSource(*seed))
+	if *scripts != "" {
+		// behaviours of the specification: abstract keys and payloads become real identifiers and documents
+		keyOf := map[string]string{"": "", "k1": hostileIDs[0], "k2": "../escape", "k3": " k1 twin "}
+		var steps []map[string]any
+		sid := 0
+		flush := func() {
+			if len(steps) > 0 {
+				runScript(sid, steps)
+			}
+			steps = nil
+		}
+		err := readND(*scripts, func(ev map[string]any) error {
+			switch str(ev, "op") {
+			case "Reset":
+				flush()
+				sid = integer(ev, "sid")
+				return nil
+			case "Store":
+				d := sbom.NewDocument()
+				d.Metadata.Id = keyOf[str(ev, "id")]
+				d.Metadata.Name = str(ev, "payload")
+				d.NodeList.AddRootNode(&sbom.Node{Id: "n-" + str(ev, "payload"), Name: str(ev, "payload")})
+				nc, _ := ev["nc"].(bool)
+				steps = append(steps, map[string]any{"op": "Store", "id": d.Metadata.Id, "doc": proj.Doc(d), "nc": nc})
+			case "Retrieve", "Delete":
+				steps = append(steps, map[string]any{"op": str(ev, "op"), "id": keyOf[str(ev, "id")]})
+			case "Corrupt":
+				steps = append(steps, map[string]any{"op": "Corrupt", "id": keyOf[str(ev, "id")], "how": str(ev, "how")})
+			case "ChmodDir":
+				if unpriv {
+					steps = append(steps, map[string]any{"op": "ChmodDir", "mode": str(ev, "mode")})
+				}
+			case "RemoveDir", "MakeFile":
+				steps = append(steps, map[string]any{"op": str(ev, "op")})
+			}
+			return nil
+		})
+		flush()
+		if err != nil {
+			return err
+		}
+	}
 	for sid := 1; sid <= *n; sid++ {
 		ids := []string{pick(r, hostileIDs), pick(r, hostileIDs), pick(r, hostileIDs[:4])}
 		if sid%2 == 0 {
